@@ -16,10 +16,10 @@ LEVEL_TEXT = ('all combinations of link target kind, absolute/relative target te
               'access and volume placement are executed; the target subtree must be unchanged in every run and a successful run '
               'must have moved the link itself (same readlink) and restore must recreate it')
 LEVEL_NOTE = 'trusted: CPython/shutil, tmpfs, shim mount rules; the own mtime of a symlink is not compared (shutil.move recreates links)'
-RULE = ('product of target kind (file, dir, nothing, link->file, link->dir, other-volume file, other-volume dir) x target text '
-        '(abs, rel) x slashes (0-3) x reach (direct, via linked parent) x placement (home volume, other volume, other volume with blocked trash dirs + home fallback = cross-device move); a same-named regular file is trashed before the link is restored; non-trivial = '
+RULE = ('product of target kind (file, dir, nothing, link->file, link->dir, other-volume file, other-volume dir, mount point, the working directory of the process, its parent) x target text '
+        '(abs, rel) x slashes (0-3) x reach (direct, via linked parent) x placement (home volume, other volume, other volume with blocked trash dirs + home fallback = cross-device move); plus one run naming {target then link, link then target, two links to the same target}; a same-named regular file is trashed before the link is restored; non-trivial = '
         'the argument passed the existence screening; distinct = outcome class x all dimensions')
-TARGETS = ['file', 'dir', 'nothing', 'chain-file', 'chain-dir', 'xvol-file', 'xvol-dir', 'mount-point']
+TARGETS = ['file', 'dir', 'nothing', 'chain-file', 'chain-dir', 'xvol-file', 'xvol-dir', 'mount-point', 'cwd', 'ancestor']
 FORMS = ['abs', 'rel']
 REACH = ['direct', 'linked-parent']
 PLACE = ['home', 'vol', 'vol-fallback']
@@ -37,6 +37,11 @@ def cases(tier):
                 for fm in FORMS:
                     for t in TARGETS:
                         out.append({'target': t, 'form': fm, 'slashes': sl, 'reach': rc, 'place': pl})
+        # one invocation names the target first and then the link (and the other way round): both are entries of their own
+        for fm in FORMS:
+            for t in ('file', 'dir', 'chain-file'):
+                for order in ('target-first', 'link-first', 'two-links'):
+                    out.append({'target': t, 'form': fm, 'slashes': 0, 'reach': 'direct', 'place': pl, 'with': order})
     return out
 
 
@@ -57,9 +62,12 @@ def run_case(c):
     t = c['target']
     abs_t = {'file': B + '/real/tfile', 'dir': B + '/real/tdir', 'nothing': B + '/real/void',
              'chain-file': B + '/real/mid-file', 'chain-dir': B + '/real/mid-dir',
-             'xvol-file': '/mnt/v2/t/tfile', 'xvol-dir': '/mnt/v2/t/tdir', 'mount-point': '/mnt/v2'}[t]
+             'xvol-file': '/mnt/v2/t/tfile', 'xvol-dir': '/mnt/v2/t/tdir', 'mount-point': '/mnt/v2',
+             'cwd': B, 'ancestor': B.rsplit('/', 1)[0]}[t]
     if c['form'] == 'rel':
-        if t == 'mount-point':
+        if t in ('cwd', 'ancestor'):
+            text = '..' if t == 'cwd' else '../..'          # the link lives in B/real
+        elif t == 'mount-point':
             text = '../../../../mnt/v2' if c['place'] == 'home' else '../../../v2'
         elif t.startswith('xvol'):
             text = ('../../../mnt/v2/t/' if c['place'] == 'home' else '../../../v2/t/') + abs_t.rsplit('/', 1)[1]
@@ -72,6 +80,8 @@ def run_case(c):
     W.link(B + '/real/lnk', text)
     E = B + '/real/lnk'
     arg = ('real/lnk' if c['reach'] == 'direct' else 'lp/lnk') + '/' * c['slashes']
+    if c.get('with'):
+        return run_with_target(c, W, B, E, abs_t, putopts, putenv)
     with cell.Sandbox(W.spec()) as sb:
         orig = sb.snapshot()
         den = sb.denote([arg], cwd=B)[0]
@@ -91,7 +101,7 @@ def run_case(c):
     dims = '|'.join('%s=%s' % (k, c[k]) for k in ('target', 'form', 'slashes', 'reach', 'place'))
     tgt_paths = [B + '/real/tfile', B + '/real/tdir', '/mnt/v2/t', B + '/real/mid-file', B + '/real/mid-dir', '/home/u/tgt', '/outside']
     changed = [p for p in tgt_paths if world.under(orig, p) != world.under(mid, p)]
-    dir_like = t in ('dir', 'chain-dir', 'xvol-dir', 'mount-point')
+    dir_like = t in ('dir', 'chain-dir', 'xvol-dir', 'mount-point', 'cwd', 'ancestor')
     blame = 'target=%s|slashes=%s' % (t, 'some' if c['slashes'] else '0')
     nt = den['resolvable'] and ('%s|%s' % (cl['state'], dims))
     if changed:
@@ -122,6 +132,26 @@ def run_case(c):
         return {'verdict': 'viol', 'sig': 'C18|target-touched-by-restore|' + blame, 'klass': 'target-touched', 'nontrivial': nt,
                 'detail': dict(detail, changed=changed)}
     return {'verdict': 'ok', 'klass': 'link-trashed-and-restored', 'nontrivial': nt, 'detail': detail}
+
+
+def run_with_target(c, W, B, E, abs_t, putopts, putenv):
+    """trash-put TARGET LINK / LINK TARGET / LINK LINK2 in one run: every argument is an entry of its own and must be trashed"""
+    T = abs_t
+    W.link(B + '/real/lnk2', W.nodes[E][2])          # a second link with the same text
+    E2 = B + '/real/lnk2'
+    args = {'target-first': [T, E], 'link-first': [E, T], 'two-links': [E, E2]}[c['with']]
+    rel = [a[len(B) + 1:] for a in args]
+    with cell.Sandbox(W.spec()) as sb:
+        orig = sb.snapshot()
+        r = sb.run(['trash-put'] + putopts + rel, cwd=B, now='2024-03-03T03:03:03', env=putenv)
+        mid = sb.snapshot()
+    states = [scen.classify_put(orig, mid, a, others=[x for x in args if x != a])['state'] for a in args]
+    detail = {'args': rel, 'exit': r.exit, 'err': r.err[-300:], 'states': states}
+    dims = 'with=%s|target=%s|form=%s|place=%s' % (c['with'], c['target'], c['form'], c['place'])
+    if states != ['TRASHED', 'TRASHED'] or r.exit != 0:
+        return {'verdict': 'viol', 'sig': 'C18|link-and-target-in-one-run|%s|target=%s|states=%s' % (c['with'], c['target'], ','.join(states)), 'klass': 'not-own-entry',
+                'nontrivial': 'with|' + dims, 'detail': detail}
+    return {'verdict': 'ok', 'klass': 'link-and-target-both-trashed', 'nontrivial': 'with|' + dims, 'detail': detail}
 
 
 def main(tier, seed):
